@@ -1063,6 +1063,9 @@ func streamTS(c *cli.Ctx, r *emit.Rng) error {
 			ns = int64(r.Intn(3)) - 1
 		}
 		t := time.Unix(sec, ns)
+		if r.Chance(1, 6) {
+			t = specialTime(r)
+		}
 		var inner prometheus.Metric
 		if r.Bool() {
 			inner = prometheus.MustNewConstMetric(d, prometheus.GaugeValue, r.AnyFloat())
@@ -1081,7 +1084,10 @@ func streamTS(c *cli.Ctx, r *emit.Rng) error {
 		has := pb.TimestampMs != nil
 		pb.TimestampMs = nil
 		same := has && proto.Equal(&pb, before) && proto.Equal(&after, before) && proto.Equal(&before0, before) && before.TimestampMs == nil
-		tags := []string{fmt.Sprintf("before-epoch:%v", t.UnixNano() < 0 || sec < 0), fmt.Sprintf("sub-ms:%v", t.Nanosecond()%1_000_000 != 0)}
+		tags := []string{fmt.Sprintf("before-epoch:%v", t.Unix() < 0), fmt.Sprintf("sub-ms:%v", t.Nanosecond()%1_000_000 != 0)}
+		if t.IsZero() {
+			tags = append(tags, "zero-time")
+		}
 		w.Add(emit.Tup("6", emit.Z(t.Unix()), emit.I(t.Nanosecond()), emit.Z(ms), emit.B(same)), t.Nanosecond()%1_000_000 != 0, tags...)
 	}
 	return w.Flush()
@@ -1199,7 +1205,41 @@ func (m tsInner) Write(pb *dto.Metric) error {
 	return nil
 }
 
+// the zero time.Time and its neighbours, the epoch and its neighbours, other extreme instants
+func specialTime(r *emit.Rng) time.Time {
+	z := time.Time{}
+	switch r.Intn(12) {
+	case 0:
+		return z
+	case 1:
+		return time.Unix(-62135596800, 0)
+	case 2:
+		return time.Date(1, 1, 1, 0, 0, 0, 0, time.UTC)
+	case 3:
+		return z.Add(time.Nanosecond)
+	case 4:
+		return z.Add(-time.Nanosecond)
+	case 5:
+		return z.Add(time.Millisecond)
+	case 6:
+		return z.Add(-time.Millisecond)
+	case 7:
+		return time.Unix(0, []int64{0, 1, -1, 1_000_000, -1_000_000, 999_999, -999_999}[r.Intn(7)])
+	case 8:
+		return time.Unix(4_000_000_000_000_000, 999_999_999)
+	case 9:
+		return time.Unix(-4_000_000_000_000_000, 1)
+	case 10:
+		return time.Date(9999, 12, 31, 23, 59, 59, 999_999_999, time.UTC)
+	default:
+		return time.Date(1, 1, 1, 0, 0, 0, r.Intn(2_000_000), time.FixedZone("x", 3600*(r.Intn(25)-12)))
+	}
+}
+
 func genTime(r *emit.Rng) time.Time {
+	if r.Chance(1, 6) {
+		return specialTime(r)
+	}
 	var sec int64
 	switch r.Intn(5) {
 	case 0:
@@ -1293,6 +1333,9 @@ func streamNested(c *cli.Ctx, r *emit.Rng) error {
 				with = prometheus.NewMetricWithTimestamp(t, with)
 				layers = append(layers, emit.Pair(emit.Z(t.Unix()), emit.I(t.Nanosecond())))
 				last = t
+				if t.IsZero() {
+					tags = append(tags, "zero-time-layer")
+				}
 			} else {
 				exN++
 				ex := prometheus.Exemplar{Value: float64(exN), Labels: prometheus.Labels{"trace": fmt.Sprint(exN)}, Timestamp: time.Unix(1_700_000_000+int64(exN), 0)}
